@@ -107,6 +107,21 @@ pub fn query(conn: &Connection, sql: &str) -> Result<SqlResult, SqlErr> {
     Ok(SqlResult { cols, rows: out })
 }
 
+/// Like `run`, for callers that evaluate many read-only statements against one unchanging instance
+/// (C02's value table): the connection is kept per thread and rebuilt only when `tag` changes.
+pub fn run_cached(tag: u64, db: &Db, sql: &str) -> Result<SqlResult, SqlErr> {
+    thread_local! {
+        static CONN: std::cell::RefCell<Option<(u64, Connection)>> = const { std::cell::RefCell::new(None) };
+    }
+    CONN.with(|c| {
+        let mut c = c.borrow_mut();
+        if c.as_ref().map(|(t, _)| *t != tag).unwrap_or(true) {
+            *c = Some((tag, open(db)?));
+        }
+        query(&c.as_ref().unwrap().1, sql)
+    })
+}
+
 pub fn run(db: &Db, sql: &str) -> Result<SqlResult, SqlErr> {
     let conn = open(db)?;
     query(&conn, sql)
